@@ -494,6 +494,12 @@ def _check_ctor(repo, R, h: Handler, hp: HPath, f, line, tparams, ops):
         R("C05", "C05.R4", "ok" if good else "bad", h, line, f"join {sorted(ops)} guards",
           f"join of payloads {items}: operands in order={ok_items}, remaining args forwarded={rest_ok}, all QBytes & per-tensor={guards}, torch.equal(scales)={eqs}, equal qtypes={eqq}, len guard={lenfact}, scale from an operand={sc_ok}",
           "operands with different scales / qtypes / a per-axis operand / more operands than are joined")
+        # the result takes the dtype of ONE operand's scale: torch.equal compares values across dtypes, so the operands' dtypes have to be compared too
+        samedt = all(any(hp.fact(t) is True for t in (f"{names[0]}.dtype == {n}.dtype", f"{n}.dtype == {names[0]}.dtype", f"{names[0]}._scale.dtype == {n}._scale.dtype", f"{n}._scale.dtype == {names[0]}._scale.dtype")) for n in names[1:])
+        if good:
+            R("C05", "C05.R4", "ok" if samedt else "bad", h, line, f"join {sorted(ops)} ignores the dtype of its other operands",
+              f"join of payloads builds its result on the scale of `{names[0]}`: the operands are known to have the same dtype on this path = {samedt}",
+              "torch.cat([q16, q32]) / torch.stack([q16, q32]) with equal scales (torch.equal is true across dtypes): a float16 result where the float program promotes to float32, depending on the operand order - (cat([q16, q32]) * 4096 is inf, the float program gives 94208)")
         R("C06", "C06.R8", "ok" if guards else "bad", h, line, f"join {sorted(ops)} keeps a possibly per-axis scale",
           f"join of payloads keeps one operand's scale: it matches the joined payload only when every operand is per-tensor (0-dim scale): {guards}",
           "two per-axis tensors with equal scales joined along their quantization axis (e.g. dim=1 for axis -1): 2N channels wrapped with an N-entry scale")
